@@ -25,3 +25,15 @@ package serverinterceptors
 //@   flag private_channels callbacks_noheap
 //@   call handler#0: assert arg0 == ctx && arg1 == req
 //@   ensures_panic false
+
+// C02 zRPC server: an admitted request resolves its promise exactly once on every exit of the handler (return or panic);
+// a shed request never reaches the handler.
+//@ func UnarySheddingInterceptor closure 0
+//@   property C02
+//@   results val, err
+//@   requires shedder != nil && handler != nil
+//@   flag callbacks_noheap
+//@   ensures  shAllows == old(shAllows) + 1
+//@   ensures  implies(shErr != nil, calls(handler) == old(calls(handler)))
+//@   ensures  implies(shErr == nil, calls(handler) == old(calls(handler)) + 1 && resolved[shPromise] == 1)
+//@   ensures_panic shErr == nil && calls(handler) == old(calls(handler)) + 1 && resolved[shPromise] == 1
